@@ -69,7 +69,7 @@ def main():
             try:
                 if a.demo and (SEEDED / name / 'demo.py').exists():
                     d = subprocess.run([sys.executable, str(SEEDED / name / 'demo.py')], capture_output=True, text=True, timeout=600,
-                                       env=dict(os.environ, PYTHONPATH='/repo/src', DASK_SCHEDULER='synchronous'))
+                                       env=dict(os.environ, PYTHONPATH='/repo/src', EMSARRAY_SRC='/repo/src', DASK_SCHEDULER='synchronous'))
                     rec['demo_with_patch'] = d.returncode
                 for prop in props:
                     for seed in [int(x) for x in a.seeds.split(',')]:
@@ -84,7 +84,7 @@ def main():
                 subprocess.run(['git', '-C', '/repo', 'checkout', '--', '.'], check=True)
             if a.demo and (SEEDED / name / 'demo.py').exists():
                 d = subprocess.run([sys.executable, str(SEEDED / name / 'demo.py')], capture_output=True, text=True, timeout=600,
-                                   env=dict(os.environ, PYTHONPATH='/repo/src', DASK_SCHEDULER='synchronous'))
+                                   env=dict(os.environ, PYTHONPATH='/repo/src', EMSARRAY_SRC='/repo/src', DASK_SCHEDULER='synchronous'))
                 rec['demo_without_patch'] = d.returncode
             rec['detected'] = any(r['exit'] == 1 for r in rec['runs'])
             results[name] = rec
